@@ -255,9 +255,9 @@ MonC07(S) ==
             THEN {} ELSE {Z("C07.sequence", S, "not exactly one dump request as the last command of the attempt", a, Cardinality(dumps))}) \cup
         (IF \E i \in 1..Len(cmds) : cmds[i].kind = "query" /\ ~cmds[i].ok /\ \E j \in 1..Len(cmds) : j > i /\ cmds[j].kind = "dump"
          THEN {Z("C07.checksum-first", S, "dump requested although SET @master_binlog_checksum was rejected by the master", a, 0)} ELSE {}) \cup
-        (IF Len(cmds) = 1 \/ \E i \in 1..Len(cmds) : cmds[i].kind = "query" /\ Contains(LowerSeq(cmds[i].sql), WChecksum)
-                                     /\ Take(LowerSeq(cmds[i].sql), 3) = WSet
-                                     /\ \A j \in 1..Len(cmds) : cmds[j].kind = "dump" => i < j
+        \* every dump request is preceded by the checksum announcement (an attempt whose dump request never arrived owes nothing)
+        (IF \A j \in 1..Len(cmds) : cmds[j].kind = "dump" =>
+               \E i \in 1..(j - 1) : cmds[i].kind = "query" /\ Contains(LowerSeq(cmds[i].sql), WChecksum) /\ Take(LowerSeq(cmds[i].sql), 3) = WSet
          THEN {} ELSE {Z("C07.checksum-first", S, "no SET @master_binlog_checksum before the dump request", a, 0)}) \cup
         UNION {
           IF cmds[j].kind # "dump" THEN {}
